@@ -70,6 +70,12 @@ func ArgTypes(p proto.Protocol) []argT {
 		{"int-minmax", &brigodier.Int32ArgumentType{Min: -5, Max: 2147483646}},
 		{"long-default", brigodier.Int64},
 		{"long-minmax", &brigodier.Int64ArgumentType{Min: -9, Max: 1 << 40}},
+		// quantifier audit: every min/max flag combination of every numeric parser
+		{"float-max", &brigodier.Float32ArgumentType{Min: brigodier.MinFloat32, Max: 2.5}},
+		{"double-min", &brigodier.Float64ArgumentType{Min: -1e-300, Max: brigodier.MaxFloat64}},
+		{"int-max", &brigodier.Int32ArgumentType{Min: brigodier.MinInt32, Max: 7}},
+		{"long-min", &brigodier.Int64ArgumentType{Min: -(1 << 40), Max: brigodier.MaxInt64}},
+		{"long-max", &brigodier.Int64ArgumentType{Min: brigodier.MinInt64, Max: 1<<63 - 1 - 5}},
 		{"string-word", brigodier.SingleWord},
 		{"string-quotable", brigodier.QuotablePhase},
 		{"string-greedy", brigodier.GreedyPhrase},
